@@ -34,6 +34,7 @@ def run(model, res, tier):
     res.trusted += ['CPython ast', 'ply 3.11 source as read', 'hxsa/effects.py ownership models']
     _r1(model, res, c)
     instance_state(model, res, c, 'R2')
+    shared_locks(model, res, c, 'R2')
     _r3(model, res, c)
     _r4(model, res, c)
     n = purity.check_region(res, c, 'R5', None, c.reach, 'evaluation')
@@ -201,6 +202,83 @@ def instance_state(model, res, c, R='R2'):
                         pass    # reported in (a)
 
 
+LOCK_CTORS = ('Lock', 'RLock', 'Condition', 'Semaphore', 'BoundedSemaphore', 'Event', 'Barrier')
+PLAIN_METHODS = set(['append', 'extend', 'get', 'items', 'keys', 'values', 'pop', 'upper', 'lower', 'join', 'split', 'strip', 'format',
+                     'startswith', 'endswith', 'replace', 'copy', 'clone', 'insert', 'remove', 'index', 'count', 'update', 'setdefault',
+                     'acquire', 'release', 'match', 'group', 'groups', 'search', 'sub', 'find', 'clear', 'add', 'discard'])
+
+
+def _value_calls(cg, k):
+    """Calls in function ``k`` whose callee is a value (a listener, a registered function, a callback): host code may run."""
+    m, f = cg.funcs[k]
+    local = set(sa.params(f)) | set([sa.vararg(f), sa.kwarg(f)])
+    for n in walk_no_defs(f):
+        if isinstance(n, ast.Name) and isinstance(n.ctx, ast.Store):
+            local.add(n.id)
+    out = []
+    for n in walk_no_defs(f):
+        if not isinstance(n, ast.Call) or (k, id(n)) in cg.sites:
+            continue
+        if isinstance(n.func, ast.Name) and n.func.id in local:
+            out.append(n)
+        elif isinstance(n.func, ast.Attribute) and n.func.attr not in PLAIN_METHODS and isinstance(n.func.value, ast.Name) \
+                and n.func.value.id in local and n.func.value.id != sa.self_name(f):
+            out.append(n)
+        elif isinstance(n.func, ast.Subscript):
+            out.append(n)
+    return out
+
+
+def shared_locks(model, res, c, R):
+    """A synchronisation object that lives on a class or a module (one object for every parser) must not be held while host code
+    runs: a listener or custom function that waits for an evaluation on another parser in another thread then never returns."""
+    cg = c.cg
+    shared = {}     # name or attr -> (module, node)
+    for m in model.modules.values():
+        for nm, node in m.constants.items():
+            if isinstance(node, ast.Call) and (sa.call_name(node) or '').split('.')[-1] in LOCK_CTORS:
+                shared[nm] = (m, node, 'module-level %s.%s' % (m.name, nm))
+        for cls in m.classes.values():
+            for node in cls.body:
+                if isinstance(node, ast.Assign) and isinstance(node.value, ast.Call) and \
+                        (sa.call_name(node.value) or '').split('.')[-1] in LOCK_CTORS:
+                    for t in node.targets:
+                        if isinstance(t, ast.Name):
+                            shared[t.id] = (m, node, 'class-level %s.%s' % (cls.name, t.id))
+    res.analysed['shared synchronisation objects'] = sorted(v[2] for v in shared.values())
+    if not shared:
+        res.ob(R, 'package', 'no class-level or module-level lock object', True)
+        return
+    host_calling = set(k for k in cg.funcs if _value_calls(cg, k))
+    for k in sorted(c.reach):
+        m, f = cg.funcs[k]
+        for n in walk_no_defs(f):
+            if not isinstance(n, ast.With):
+                continue
+            held = None
+            for it in n.items:
+                e = it.context_expr
+                nm = e.attr if isinstance(e, ast.Attribute) else (e.id if isinstance(e, ast.Name) else None)
+                if nm in shared:
+                    held = shared[nm]
+            if held is None:
+                continue
+            body_calls = [x for st in n.body for x in ast.walk(st) if isinstance(x, ast.Call)]
+            direct = [x for x in _value_calls(cg, k) if any(x is y for y in body_calls)]
+            callees = set()
+            for x in body_calls:
+                callees |= cg.sites.get((k, id(x)), set())
+            via = sorted(cg.reachable(sorted(callees)) & host_calling) if callees else []
+            bad = bool(direct) or bool(via)
+            res.ob(R, fmt(k), 'with %s' % held[2], not bad, 'host code runs while the lock is held' if bad else 'no host code under the lock')
+            if bad:
+                what = src(direct[0]) if direct else 'via %s' % fmt(via[0])
+                res.violation(R, '%s:%s:shared-lock-held-over-host-code' % k, m.where(n),
+                              'the %s lock is one object for every parser and is held while host code runs (%s): a listener or custom '
+                              'function that waits for an evaluation on another parser in another thread blocks forever, and evaluations on '
+                              'different parsers serialise each other' % (held[2], what), func=k[1])
+
+
 def _r3(model, res, c):
     cg = c.cg
     eff = c.effects
@@ -213,6 +291,9 @@ def _r3(model, res, c):
             for n in ast.walk(f):
                 if isinstance(n, ast.Subscript) and isinstance(n.ctx, ast.Store) and isinstance(n.value, ast.Attribute):
                     reg_attr = n.value.attr
+                if isinstance(n, ast.Call) and isinstance(n.func, ast.Attribute) and n.func.attr in ('update', 'setdefault', '__setitem__') \
+                        and isinstance(n.func.value, ast.Attribute) and reg_attr is None:
+                    reg_attr = n.func.value.attr
     if reg_attr is None:
         raise AnalysisError('registry write in register_for not found (anchor vanished)')
     n_w = 0
